@@ -248,6 +248,9 @@ func (s *Scanner) Next() (lexeme.LexEvent, bool) {
 		case lexeme.InlineAnnotationTextBegin:
 			return s.processingFoundLexeme(lexeme.InlineAnnotationTextEnd), true
 		case lexeme.TypesShortcutBegin:
+			if s.unfinishedLiteral {
+				break
+			}
 			s.found(lexeme.MixedValueEnd)
 			return s.processingFoundLexeme(lexeme.TypesShortcutEnd), true
 		}
@@ -1158,6 +1161,7 @@ func stateNul(s *Scanner, c byte) state {
 func stateTypesShortcutBeginOfSchemaName(s *Scanner, c byte) state {
 	if bytes.IsValidUserTypeNameByte(c) {
 		s.step = stateTypesShortcutSchemaName
+		s.unfinishedLiteral = false
 		return scanContinue
 	}
 	panic(s.newDocumentErrorAtCharacter("in schema name"))
@@ -1185,6 +1189,7 @@ func stateTypesShortcutSchemaName(s *Scanner, c byte) state {
 
 	case c == '|':
 		s.step = stateTypesShortcutAfterPipe
+		s.unfinishedLiteral = true
 
 	default:
 		return stateEndValue(s, c)
@@ -1211,6 +1216,7 @@ func stateTypesShortcutBeforePipe(s *Scanner, c byte) state {
 
 	case c == '|':
 		s.step = stateTypesShortcutAfterPipe
+		s.unfinishedLiteral = true
 
 	default:
 		s.step = stateEndValue
